@@ -974,7 +974,51 @@ def r5_lone_allof_only(ctx):
         ctx.check(R, "unwrapped-only-when-alone#%d" % n, ok, "the element is taken only on the `length is 1` edge of a test of the allOf list's length (length tests found: %d): %s" % (len(guards), ok), (f, bb))
 
 
-RULES = [("C08.R5", r5_lone_allof_only), ("C08.R1", r1_mapping), ("C08.R1b", r1b_carried_unmodified), ("C08.R2", r2_recursion), ("C08.R3", r3_single_entry), ("C08.R4", r4_tables)]
+def r6_void_schema_test_is_exhaustive(ctx):
+    """Added after adversary change C08-M (the inner pattern of `is_empty` for `not: {..}` was "simplified" to `SchemaObject { instance_type:
+    None, subschemas: None, .. }`: a response whose schema is `not: {$ref: ..}` / `not: {enum: ..}` was classed as the void schema and
+    published without content).  is_empty decides which response schemas are dropped from the document, so it may answer true only for the
+    schemas that match nothing: wherever it answers true after looking at some validation keyword of a schema object, it has looked at all
+    of them (a keyword that is not looked at can be present, and then the schema is not the one the pattern describes)."""
+    R = ctx.rule("C08.R6", "api_description::is_empty answers true only on paths that tested every validation keyword of each schema object (and every member of each "
+                 "subschema group) they looked into: the void schema is recognised by an exhaustive pattern, not by a sample of its fields", floor=2)
+    ds = ctx.ds
+    f = ctx.need_fn(ds, R, r"^api_description::is_empty$")
+    sites = [bb for bb, i, st in f.stmts() if st["pl"] == {"l": 0, "p": []} and st["rv"]["rv"] == "use" and st["rv"]["op"].get("k") == "const"
+             and (st["rv"]["op"].get("val") or {}).get("int") == 1 and bb in f.reachable(0)]
+    ctx.check(R, "true-sites", len(sites) >= 1, "places where is_empty answers true: %d" % len(sites), f, nontrivial=False)
+    groups = {}
+    for adt, skip in (("schemars::schema::SchemaObject", {"metadata", "extensions"}), ("schemars::schema::SubschemaValidation", set())):
+        a = ds.adts.get(adt)
+        if a:
+            groups[adt] = set(x["name"] for x in a["variants"][0]["fields"]) - skip
+    if len(groups) != 2:
+        ctx.lost(R, "the field lists of schemars' SchemaObject / SubschemaValidation")
+        return
+    tests = []      # (switch bb, root local, field name, {value: target})
+    for sbb, t in f.switches():
+        info = f.switch_on(sbb)
+        if info.get("kind") != "discr":
+            continue
+        pl = info["place"]
+        names = [e.get("n") for e in pl["p"] if isinstance(e, dict) and "f" in e and e.get("n") is not None]
+        if names:
+            tests.append((sbb, pl["l"], names[-1], dict((v, tg) for v, tg in t["targets"])))
+    for n, site in enumerate(sorted(sites)):
+        seen = {}
+        for sbb, root, name, tg in tests:
+            if any(f.edge_dominates(sbb, tgt, site) for tgt in tg.values()):
+                seen.setdefault(root, set()).add(name)
+        missing = []
+        for root, names in sorted(seen.items()):
+            for adt, want in groups.items():
+                if names & want and not want <= names and (len(names & want) >= 2 or adt.endswith("SubschemaValidation")):
+                    missing.append("%s of local %d: not tested %s" % (adt.split("::")[-1], root, sorted(want - names)))
+        ctx.check(R, "true-answer-after-exhaustive-tests#%d" % n, not missing, "keyword tests on the way to this `true`: %s%s" % (
+            {r: len(v) for r, v in sorted(seen.items())} or "none (a constant-schema arm)", ("; " + "; ".join(missing)) if missing else ""), (f, site))
+
+
+RULES = [("C08.R6", r6_void_schema_test_is_exhaustive), ("C08.R5", r5_lone_allof_only), ("C08.R1", r1_mapping), ("C08.R1b", r1b_carried_unmodified), ("C08.R2", r2_recursion), ("C08.R3", r3_single_entry), ("C08.R4", r4_tables)]
 
 SU = "dropshot/src/schema_util.rs"
 _EXT = "    data.extensions = obj\n        .extensions\n        .iter()\n        .filter(|(key, _)| key.starts_with(\"x-\"))\n        .map(|(key, value)| (key.clone(), value.clone()))\n        .collect();\n"
